@@ -690,7 +690,7 @@ def gen_raw_histories(rng, tier, equal_every=0):
         out.append({"hist": _gen_history(rng, rng.randrange(3, 50), first_add_after=rng.choice([None, 2, 5, 9]), fault=0.2, equal_dests=eq),
                     "raw": True, "equal_dests": eq})
     for k in range(2 if tier == "quick" else 10):
-        nbuf = CAP + rng.randrange(1, 1200)
+        nbuf = (CAP + rng.randrange(1, 900)) if k % 2 == 0 else (2 * CAP + rng.randrange(0, 700))     # beyond 1000 and beyond 2000
         out.append({"hist": _gen_history(rng, nbuf + 30, first_add_after=nbuf, fault=0.1, lean=True), "raw": True, "big": True})
     return out
 
